@@ -13,13 +13,19 @@ open Strophe Strophe.Hash
 def llx (n : Nat) : String :=
   String.ofList (Nat.toDigits 16 n)
 
-/-- 1..16 hex digits -/
+/-- `strtoull(tok, &end, 16)` with `*end == 0`: hex digits with an optional `0x` prefix;
+    a value that does not fit 64 bits saturates to ULLONG_MAX (sign prefixes are not part of
+    the protocol and are rejected here) -/
 def parseHex64 (s : String) : Option Nat :=
   let cs := s.toList
-  if cs.isEmpty || cs.length > 16 then none else
-  cs.foldl (fun acc c => match acc, Hex.nibble c with
-    | some a, some d => some (a * 16 + d)
-    | _, _ => none) (some 0)
+  let cs := match cs with
+    | '0' :: 'x' :: c :: rest => if (Hex.nibble c).isSome then c :: rest else cs
+    | '0' :: 'X' :: c :: rest => if (Hex.nibble c).isSome then c :: rest else cs
+    | _ => cs
+  if cs.isEmpty then none else
+  (cs.foldl (fun acc c => match acc, Hex.nibble c with
+    | some a, some d => some (min (a * 16 + d) (2 ^ 64))
+    | _, _ => none) (some 0)).map fun v => min v (2 ^ 64 - 1)
 
 def parseChunks (toks : List String) : Option (List Bytes) :=
   toks.mapM Hex.toBytes
